@@ -17,7 +17,7 @@ Record WFq (X : list nat) (s : st) : Prop := {
   wf_nodup : NoDup (queue s);
   wf_sorted : StronglySorted (le_next s) (queue s);
   wf_q : forall j, In j (queue s) -> jstatus (jobs s j) = Running /\ ~ In j X;
-  wf_rn : forall j, jstatus (jobs s j) = Running -> (j < njobs s)%nat;
+  wf_rn : forall j, jlinked (jobs s j) = true -> (j < njobs s)%nat;
   wf_r : forall j, jstatus (jobs s j) = Running -> In j (queue s) \/ In j X;
   wf_sn : forall j, jstatus (jobs s j) = Running <-> nxt s j <> None;
   wf_lk : forall j, jstatus (jobs s j) = Running -> jlinked (jobs s j) = true;
@@ -146,12 +146,16 @@ Proof. reflexivity. Qed.
 (* ------------------------------------------------------------------------------------------- *)
 (* "scheduler view" of a state: what WFq looks at *)
 Definition same_view (s s' : st) : Prop :=
-  queue s' = queue s /\ jobs s' = jobs s /\ njobs s' = njobs s /\ broken s' = broken s.
+  queue s' = queue s /\
+  (forall k, jstatus (jobs s' k) = jstatus (jobs s k) /\ jnext (jobs s' k) = jnext (jobs s k) /\
+             jlinked (jobs s' k) = jlinked (jobs s k)) /\
+  njobs s' = njobs s /\ broken s' = broken s.
 
-Lemma le_next_view s s' a b : jobs s' = jobs s -> le_next s a b -> le_next s' a b.
-Proof. unfold le_next, nxt; intros ->; auto. Qed.
+Lemma le_next_view s s' a b : (forall k, jnext (jobs s' k) = jnext (jobs s k)) -> le_next s a b -> le_next s' a b.
+Proof. unfold le_next, nxt; intros H; rewrite !H; auto. Qed.
 
-Lemma sorted_view s s' q : jobs s' = jobs s -> StronglySorted (le_next s) q -> StronglySorted (le_next s') q.
+Lemma sorted_view s s' q : (forall k, jnext (jobs s' k) = jnext (jobs s k)) ->
+  StronglySorted (le_next s) q -> StronglySorted (le_next s') q.
 Proof.
   intros Hj H; induction H as [|a l Hs IH Hall]; constructor; auto.
   eapply Forall_impl; [|exact Hall]. intros b Hb; eapply le_next_view; eauto.
@@ -160,8 +164,17 @@ Qed.
 Lemma WFq_view X s s' : same_view s s' -> WFq X s -> WFq X s'.
 Proof.
   intros (Hq & Hj & Hn & Hb) [H1 H2 H3 H3' H4 H5 H6 H7 H8].
-  constructor; unfold nxt in *; rewrite ?Hq, ?Hj, ?Hn, ?Hb; auto.
-  eapply sorted_view; eauto.
+  assert (Hs : forall k, jstatus (jobs s' k) = jstatus (jobs s k)) by (intros k; apply Hj).
+  assert (Hx : forall k, jnext (jobs s' k) = jnext (jobs s k)) by (intros k; apply Hj).
+  assert (Hl : forall k, jlinked (jobs s' k) = jlinked (jobs s k)) by (intros k; apply Hj).
+  constructor; unfold nxt in *; rewrite ?Hq, ?Hn, ?Hb; auto.
+  - eapply sorted_view; eauto.
+  - intros j; rewrite Hs; auto.
+  - intros j; rewrite Hl; auto.
+  - intros j; rewrite Hs; auto.
+  - intros j; rewrite Hs, Hx; auto.
+  - intros j; rewrite Hs, Hl; auto.
+  - intros j; rewrite Hs, Hl; auto.
 Qed.
 
 Lemma view_timer v s : same_view s (set_timer_f v s).
@@ -177,13 +190,25 @@ Proof. repeat split. Qed.
 Lemma same_view_refl s : same_view s s.
 Proof. repeat split. Qed.
 Lemma same_view_trans a b c : same_view a b -> same_view b c -> same_view a c.
-Proof. unfold same_view; intros (?&?&?&?) (?&?&?&?); repeat split; congruence. Qed.
+Proof.
+  unfold same_view; intros (q1&j1&n1&b1) (q2&j2&n2&b2). split; [congruence|]. split; [|split; congruence].
+  intros k. destruct (j1 k) as (x1&x2&x3). destruct (j2 k) as (y1&y2&y3). repeat split; congruence.
+Qed.
+
+Lemma run_cbs_fields mk cbs s :
+  let s' := run_cbs E mk cbs s in
+  queue s' = queue s /\ jobs s' = jobs s /\ njobs s' = njobs s /\ broken s' = broken s.
+Proof.
+  revert s; induction cbs as [|cb t IH]; intros s; cbn [run_cbs]; [repeat split|].
+  cbv zeta in *. destruct (IH (if fail_cb E cb (count_cb cb (log s))
+                then add_ev (EHandler (HCb cb)) (add_ev (mk cb) s) else add_ev (mk cb) s)) as (a&b&c&d).
+  rewrite a, b, c, d. destruct (fail_cb E cb _); repeat split.
+Qed.
 
 Lemma run_cbs_view mk cbs s : same_view s (run_cbs E mk cbs s).
 Proof.
-  revert s; induction cbs as [|cb t IH]; intros s; cbn [run_cbs]; [apply same_view_refl|].
-  eapply same_view_trans; [|apply IH].
-  destruct (fail_cb E cb _); repeat split.
+  destruct (run_cbs_fields mk cbs s) as (a&b&c&d). split; [exact a|]. split; [|split; assumption].
+  intros k. rewrite b. repeat split.
 Qed.
 
 Lemma run_cbs_other mk cbs s :
@@ -280,7 +305,7 @@ Definition job_ok (b : job) : Prop :=
 
 (* replacing a job that is outside the queue *)
 Lemma WFq_set_job_out X s j b :
-  WFq (j :: X) s -> ~ In j (queue s) -> job_ok b -> (jstatus b = Running -> (j < njobs s)%nat) ->
+  WFq (j :: X) s -> ~ In j (queue s) -> job_ok b -> (jlinked b = true -> (j < njobs s)%nat) ->
   WFq (j :: X) (set_job j b s).
 Proof.
   intros [H1 H2 H3 H3' H4 H5 H6 H7 H8] Hni (Hb1 & Hb2 & Hb3) Hlt.
@@ -438,7 +463,7 @@ Lemma set_next_run_props j nx s :
 Proof.
   unfold set_next_run. cbv zeta.
   set (s1 := set_job j _ s).
-  destruct (run_cbs_view (fun cb => ECbUpd j cb (match nx with None => Paused | Some _ => Running end) nx)
+  destruct (run_cbs_fields (fun cb => ECbUpd j cb (match nx with None => Paused | Some _ => Running end) nx)
               (jcbu (jobs s j)) s1) as (a & b & c & d).
   destruct (run_cbs_other (fun cb => ECbUpd j cb (match nx with None => Paused | Some _ => Running end) nx)
               (jcbu (jobs s j)) s1) as (e & f & g & h & i).
@@ -454,7 +479,7 @@ Proof.
   unfold finish_job. cbv zeta.
   set (s1 := set_job j _ s).
   set (s2 := if jstored (jobs s j) then _ else s1).
-  destruct (run_cbs_view (fun cb => ECbFin j cb) (jcbf (jobs s j)) s2) as (a & b & c & d).
+  destruct (run_cbs_fields (fun cb => ECbFin j cb) (jcbf (jobs s j)) s2) as (a & b & c & d).
   destruct (run_cbs_other (fun cb => ECbFin j cb) (jcbf (jobs s j)) s2) as (e & f & g & h & i).
   rewrite a, b, c, d, e, f, g, i. subst s2 s1. destruct (jstored (jobs s j)); repeat split.
 Qed.
@@ -613,15 +638,20 @@ Qed.
 
 Lemma exec_pre_props j t s :
   let s' := exec_pre j t s in
-  same_view s s' /\ now s' = now s /\ enabled s' = enabled s /\ timer s' = timer s /\ opi s' = opi s /\ store s' = store s.
+  (queue s' = queue s /\ jobs s' = jobs s /\ njobs s' = njobs s /\ broken s' = broken s) /\
+  now s' = now s /\ enabled s' = enabled s /\ timer s' = timer s /\ opi s' = opi s /\ store s' = store s.
 Proof. unfold exec_pre. cbv zeta. destruct (fail_exec E j _); repeat split. Qed.
+
+Lemma fields_view s s' : queue s' = queue s -> jobs s' = jobs s -> njobs s' = njobs s -> broken s' = broken s ->
+  same_view s s'.
+Proof. intros a b c d. split; [exact a|]. split; [|split; assumption]. intros k; rewrite b; repeat split. Qed.
 
 Lemma exec_job_step f : core_specs f -> exec_job_spec (S f).
 Proof.
   intros (_ & _ & _ & _ & IHrm & _) X j t s s' W Hnq Hrun En HTl H. rewrite exec_job_S in H. cbv zeta in H.
   destruct (exec_pre_props j t s) as ((v1 & v2 & v3 & v4) & p1 & p2 & p3 & p4 & p5).
   remember (exec_pre j t s) as s0 eqn:Es0.
-  assert (W0 : WFq (j :: X) s0) by (eapply WFq_view; [|exact W]; repeat split; assumption).
+  assert (W0 : WFq (j :: X) s0) by (eapply WFq_view; [|exact W]; apply fields_view; assumption).
   assert (F0 : frame s s0) by (repeat split; congruence).
   assert (Tl0 : Tl s0) by (eapply Tl_view; [..|exact HTl]; assumption).
   assert (Hnq0 : ~ In j (queue s0)) by (rewrite v1; exact Hnq).
@@ -641,7 +671,7 @@ Proof.
     assert (Wb : WFq (j :: X) (set_job j b s1)).
     { apply WFq_set_job_out; [exact W1|exact Hnq1|subst b; repeat split; cbn; congruence|subst b; cbn; congruence]. }
     split; [|split].
-    + eapply WFq_view; [|exact Wb]. repeat split; cbn [queue jobs njobs broken set_job set_jobs]; assumption.
+    + eapply WFq_view; [|exact Wb]. apply fields_view; cbn [queue jobs njobs broken set_job set_jobs]; assumption.
     + eapply Tl_view; [..|apply (Tl_set_job_out s1 j b Hnq1 (Tl1 En0 Tl0))];
         cbn [queue jobs now timer set_job set_jobs]; assumption.
     + eapply frame_trans; [exact F0|]. eapply frame_trans; [exact F1|]. repeat split; assumption.
@@ -650,9 +680,10 @@ Proof.
     destruct (set_next_run_props j None s0) as (q1 & q2 & q3 & q4 & q5 & q6 & q7 & q8 & q9).
     set (b := with_status_next (jobs s0 j) Paused None) in *.
     assert (Wb : WFq (j :: X) (set_job j b s0)).
-    { apply WFq_set_job_out; [exact W0|exact Hnq0|subst b; repeat split; cbn; congruence|subst b; cbn; congruence]. }
+    { apply WFq_set_job_out; [exact W0|exact Hnq0|subst b; repeat split; cbn; congruence|].
+      subst b; cbn. apply (wf_rn _ _ W0). }
     split; [|split].
-    + eapply WFq_view; [|exact Wb]. repeat split; cbn [queue jobs njobs broken set_job set_jobs]; assumption.
+    + eapply WFq_view; [|exact Wb]. apply fields_view; cbn [queue jobs njobs broken set_job set_jobs]; assumption.
     + eapply Tl_view; [..|apply (Tl_set_job_out s0 j b Hnq0 Tl0)];
         cbn [queue jobs now timer set_job set_jobs]; assumption.
     + eapply frame_trans; [exact F0|]. repeat split; assumption.
@@ -663,7 +694,7 @@ Proof.
     assert (Tl1 : Tl s1) by (subst s1; eapply Tl_view; [..|exact Tl0]; reflexivity).
     assert (Hnq1 : ~ In j (queue s1)) by (subst s1; exact Hnq0).
     assert (Hlk : jlinked (jobs s1 j) = true) by (subst s1; apply (wf_lk _ _ W0); exact Hrun0).
-    assert (Hlt : (j < njobs s1)%nat) by (subst s1; apply (wf_rn _ _ W0); exact Hrun0).
+    assert (Hlt : (j < njobs s1)%nat) by (subst s1; apply (wf_rn _ _ W0); apply (wf_lk _ _ W0); exact Hrun0).
     clear Es1.
     assert (Hfail : forall s2, s2 = add_ev (EHandler (HJob j)) s1 -> WFq (j :: X) s2 /\ Tl s2 /\ frame s s2).
     { intros s2 ->. split; [eapply WFq_view; [apply view_add_ev|exact W1]|].
@@ -677,7 +708,7 @@ Proof.
     { apply WFq_set_job_out; [exact W1|exact Hnq1| |intros _; exact Hlt].
       subst b. split; [|split]; cbn; [split; congruence|intros _; exact Hlk|congruence]. }
     split; [|split].
-    + eapply WFq_view; [|exact Wb]. repeat split; cbn [queue jobs njobs broken set_job set_jobs]; assumption.
+    + eapply WFq_view; [|exact Wb]. apply fields_view; cbn [queue jobs njobs broken set_job set_jobs]; assumption.
     + eapply Tl_view; [..|apply (Tl_set_job_out s1 j b Hnq1 Tl1)];
         cbn [queue jobs now timer set_job set_jobs]; assumption.
     + eapply frame_trans; [exact F1|]. repeat split; assumption.
